@@ -127,19 +127,27 @@ class LinesearchSolver(NonlinearSolver):
                 if not np.isscalar(ref):
                     ref = ref.ravel()
 
-                if var_lower is not None:
-                    if self._lower_bounds is None:
-                        self._lower_bounds = np.full(len(system._outputs), -np.inf)
-                    if not np.isscalar(var_lower):
-                        var_lower = var_lower.ravel()
-                    self._lower_bounds[start:end] = (var_lower - ref0) / (ref - ref0)
+                if self._lower_bounds is None:
+                    self._lower_bounds = np.full(len(system._outputs), -np.inf)
+                if self._upper_bounds is None:
+                    self._upper_bounds = np.full(len(system._outputs), np.inf)
 
-                if var_upper is not None:
-                    if self._upper_bounds is None:
-                        self._upper_bounds = np.full(len(system._outputs), np.inf)
-                    if not np.isscalar(var_upper):
-                        var_upper = var_upper.ravel()
-                    self._upper_bounds[start:end] = (var_upper - ref0) / (ref - ref0)
+                if var_lower is None:
+                    var_lower = -np.inf
+                elif not np.isscalar(var_lower):
+                    var_lower = var_lower.ravel()
+
+                if var_upper is None:
+                    var_upper = np.inf
+                elif not np.isscalar(var_upper):
+                    var_upper = var_upper.ravel()
+
+                # Where the scaling factor (ref - ref0) is negative, the scaled image of the
+                # physical lower bound is an upper bound and vice versa.
+                scaled_lower = (var_lower - ref0) / (ref - ref0)
+                scaled_upper = (var_upper - ref0) / (ref - ref0)
+                self._lower_bounds[start:end] = np.minimum(scaled_lower, scaled_upper)
+                self._upper_bounds[start:end] = np.maximum(scaled_lower, scaled_upper)
 
                 start = end
         else:
